@@ -11,8 +11,12 @@ EXTENDS Naturals, Sequences, FiniteSets, TLC
 
 CONSTANTS Versions, Gen, HelperPath, HelperBug, MaxRuns,
           Fails,        \* Fails[v]: the sources of version v contain something typeshare rejects - the run of v ends with an error
-          EagerWrite    \* layer-M switch: TRUE = files of the crates BEFORE the offending one are written before the error is noticed
+          EagerWrite,   \* layer-M switch: TRUE = files of the crates BEFORE the offending one are written before the error is noticed
                         \* (what a generator that checks crate by crate would do; kept so that TLC can show what that violates)
+          Extends,      \* pairs <<c, d>> of generated contents with c a proper prefix of d (a version that only ADDS a definition
+                        \* sorting last makes the old output a prefix of the new one)
+          Compare       \* layer-M switch: "equal" = the old file is compared with the whole new content (the code); "prefix" = a
+                        \* comparison that stops at the shorter of the two (kept so that TLC can show what that violates)
 VARIABLES fs, clock, last, hist
 
 vars == <<fs, clock, last, hist>>
@@ -20,8 +24,12 @@ NL == "\n"
 Written(p, c) == IF p = HelperPath /\ HelperBug THEN <<c, NL>> ELSE <<c>>     \* bytes that end up on disk
 Compared(p, c) == <<c>>                                                       \* bytes the old file is compared with
 
+\* on-disk contents are sequences of chunks: <<>> (an empty placeholder file), <<c>>, <<c, NL>>
+IsPrefixOf(x, y) == \/ x = <<>> \/ x = y
+                    \/ Len(x) = 1 /\ Len(y) >= 1 /\ (x[1] = y[1] \/ <<x[1], y[1]>> \in Extends)
+LooksUnchanged(old, new) == IF Compare = "equal" THEN old = new ELSE IsPrefixOf(old, new) \/ IsPrefixOf(new, old)
 WriteIfChanged(store, p, c, t) ==
-    IF p \in DOMAIN store /\ store[p].content = Compared(p, c) THEN store     \* unchanged: keep the mtime
+    IF p \in DOMAIN store /\ LooksUnchanged(store[p].content, Compared(p, c)) THEN store     \* unchanged: keep the mtime
     ELSE IF c = "" THEN store                                                  \* nothing to write
     ELSE [q \in (DOMAIN store) \cup {p} |-> IF q = p THEN [content |-> Written(p, c), mtime |-> t] ELSE store[q]]
 
@@ -40,12 +48,18 @@ RunOn(store, v, t) == IF ~Fails[v] THEN WriteAll(store, DOMAIN Gen[v], v, t)
 Empty == [p \in {} |-> 0]
 
 Init == fs = Empty /\ clock = 0 /\ last = "none" /\ hist = <<>>
-Run(v) == /\ Len(hist) < MaxRuns
+\* the location is not always empty when the first run starts: a placeholder (an empty file created by a build system, by
+\* `touch`) may sit at an output path. Only as the first step of a history.
+Touch == /\ hist = <<>> /\ fs = Empty
+         /\ fs' = [p \in {"a"} |-> [content |-> <<>>, mtime |-> 0]]
+         /\ hist' = <<"touch">>
+         /\ UNCHANGED <<clock, last>>
+Run(v) == /\ Len(SelectSeq(hist, LAMBDA x : x # "touch")) < MaxRuns
           /\ clock' = clock + 1
           /\ fs' = RunOn(fs, v, clock')
           /\ last' = v
           /\ hist' = Append(hist, v)
-Next == \E v \in Versions : Run(v)
+Next == Touch \/ \E v \in Versions : Run(v)
 Spec == Init /\ [][Next]_vars
 
 \* ---------------------------------------------------------------- layer P (C17)
@@ -53,9 +67,9 @@ Spec == Init /\ [][Next]_vars
 \* (a failing run is responsible for no file)
 FreshContent(v) == LET s == (IF Fails[v] THEN Empty ELSE RunOn(Empty, v, 1)) IN [p \in DOMAIN s |-> s[p].content]
 \* re-running with unchanged sources leaves every file byte-identical and untouched
-Idempotent == [][last' = last => fs' = fs]_vars
+Idempotent == [][(last' = last /\ last # "none") => fs' = fs]_vars
 \* C08 / C17: a run that fails creates and modifies nothing (bytes and modification times)
-FailedRunTouchesNothing == [][(Len(hist') > Len(hist) /\ Fails[last']) => fs' = fs]_vars
+FailedRunTouchesNothing == [][(Len(hist') > Len(hist) /\ hist'[Len(hist')] # "touch" /\ Fails[last']) => fs' = fs]_vars
 \* after any history, every file the last run is responsible for has the fresh content
 Fresh == last # "none" => \A p \in DOMAIN FreshContent(last) : p \in DOMAIN fs /\ fs[p].content = FreshContent(last)[p]
 =============================================================================
